@@ -105,7 +105,8 @@ WithdrawEvOn(st, a, pr, rt) ==
 FirstBad(mons) == IF \A k \in DOMAIN mons : mons[k][2] THEN ""
                   ELSE mons[CHOOSE k \in DOMAIN mons : ~mons[k][2] /\ \A j \in 1..(k-1) : mons[j][2]][1]
 SwapBad(e) == FirstBad(<< <<"C04In", C04In(e)>>, <<"C04Out", C04Out(e)>>, <<"C04Atomic", C04Atomic(e)>>,
-                          <<"C05Value", C05Value(e)>>, <<"C05Exact", C05Exact(e)>> >>)
+                          <<"C05Value", C05Value(e)>>, <<"C05Exact", C05Exact(e)>>,
+                          <<"C05Funded", C05Funded(e)>> >>)
 WithdrawBad(e) == FirstBad(<< <<"C06WithdrawShare", C06WithdrawShare(e)>> >>)
 DepositBad(e, pr) ==
   LET b1 == FirstBad(<< <<"C06DepositShare", C06DepositShare(e)>>, <<"C06First", C06First(e)>> >>)
